@@ -50,12 +50,16 @@ TRUSTED = ["pyvc VC generator; z3 5.1.0 / cvc5 1.0.3", "idealised AEAD (see C12)
 ASSUMPTIONS = [
     "stream method names are Python identifiers; the proof only uses: non-empty and NUL-free",
     "domains are NUL-free (as in C12)",
+    "the end-to-end harness runs with token_ttl > 0 (expiry configured); ttl = 0 only skips created_at bookkeeping",
     "only the cursor token needs the binding for the property: a call token is used only when its call id equals the one inside the already-accepted cursor token (C12.O6)",
     "tokens re-minted by later turns: proved for the mint functions and, syntactically, for their call sites (O2); the turn shells themselves are not executed symbolically",
 ]
 
 
 def replay_cross_method(inputs, ob):
+    inputs = dict(inputs)
+    inputs.setdefault("minting_method", "a")
+    inputs.setdefault("exchange_method", "b")  # dependency obligations carry no model: replay the cross-method presentation
     return K.replay_end_to_end(inputs, ob)
 
 
